@@ -94,6 +94,12 @@ def LChain.show (c : LChain) : String :=
 def showInbound (root : String) (pas : List PA) (w : Workload) : String :=
   joinOrDash (sortStrings ((inboundChains root pas w inboundSvcPorts).map LChain.show))
 
+def showKeys (root : String) (k : AKeys) : String :=
+  encList (sortStrings ((if k.static then [s!"{root}/istio_converted_static_strict"] else []) ++
+    (match k.wl with
+     | none => []
+     | some p => [s!"{p.ns}/converted_peer_authentication_{p.name}"])))
+
 def step (s : DState) (toks : List String) : DState × String :=
   match toks with
   | "case" :: _ :: _ :: root :: fx :: _ => ({ root := dec root, pas := [], fx := parseFx fx }, "ok")
@@ -109,6 +115,24 @@ def step (s : DState) (toks : List String) : DState × String :=
   | ["chk", ns, labels, port, epTLS, dr] =>
     let w : Workload := { ns := dec ns, labels := parseLabels labels }
     (s, boolTok (checkMtlsEnabled s.root s.pas (DRMode.ofTok dr) (tokBool epTLS) w (port.toNat?.getD 0)))
+  | ["cv", i, j, k] =>
+    -- direct call of convertPeerAuthentication on policies picked by index
+    match s.pas[i.toNat?.getD 0]? with
+    | none => (s, "bad-op")
+    | some cfg =>
+      let pick (t : String) : Option PA := if t == "-" then none else s.pas[t.toNat?.getD 0]?
+      (s, match convertPAG s.fx s.root cfg (pick j) (pick k) with
+          | none => "nil"
+          | some a => Authz.show a)
+  | ["ks", idx] =>
+    -- direct call of convertedSelectorPeerAuthentications on an arbitrary list of policies
+    let l := (decList idx).filterMap (fun t => s.pas[t.toNat?.getD 0]?)
+    (s, showKeys s.root (ambientKeysG s.fx s.root l))
+  | ["go", idx] =>
+    let l := (decList idx).filterMap (fun t => s.pas[t.toNat?.getD 0]?)
+    (s, match getOldestG s.fx l with
+        | none => "nil"
+        | some p => s!"{p.ns}/{p.name}")
   | ["il", ns, labels] =>
     let w : Workload := { ns := dec ns, labels := parseLabels labels }
     (s, showInbound s.root s.pas w)
